@@ -9,7 +9,7 @@
    (/repo cac7db0).  [maxvol_rect_pinned] ( = maxvol_rect_gen false ) is the code as pinned, i = np.argmax(F); it is
    kept only as the subject of the machine-checked finding C08_rect_distinct_refuted. *)
 From Coq Require Import List Arith Lia PeanoNat ZArith QArith Qcanon.
-From TV Require Import Num.Ops Lin.Mat Model.Maxvol Proofs.MaxvolP Proofs.MaxvolRectP.
+From TV Require Import Num.Ops Lin.Mat Model.Maxvol Proofs.MaxvolP Proofs.MaxvolRectP Proofs.MaxvolChkP.
 Import ListNotations.
 
 (* ---------------- maxvol ---------------- *)
@@ -143,11 +143,52 @@ Theorem C08_dispatch_spec : forall (T : Type) (K : ops T), ordfield K ->
               (Nat.min (mr A) (mc A) <= length I <= mr A)%nat.
 Proof. exact @dispatch_spec. Qed.
 
+(* ---------------- the oracle contract as it is validated at run time ---------------- *)
+
+(* iteration limit 0: the initialisation is returned unchanged *)
+Theorem C08_maxvol_limit0 : forall (T : Type) (K : ops T) (lu_init : @lu_t T) A e I0 B0,
+  (mc A < mr A)%nat -> lu_init A = Ok (I0, B0) -> maxvol K lu_init A e 0 = Ok (I0, B0).
+Proof. exact @maxvol_limit0. Qed.
+
+(* [lu_contract_b] is the boolean the correspondence evaluates (exactly, over Qc) on every recorded LU initialisation
+   of the exact streams.  It is sound: true implies the contract assumed above, for the replayed oracle ... *)
+Theorem C08_lu_check_sound : forall (T : Type) (K : ops T), ordfield K ->
+  (forall x y, oeqb K x y = true -> x = y) ->
+  forall A I0 B0, lu_contract_b K A I0 B0 = true ->
+  mv_inv K A I0 B0 /\ lu_contract K A (lu_replay I0 B0 A).
+Proof. exact (fun T K OF E A I0 B0 H => conj (lu_contract_b_sound K E A I0 B0 H) (replay_contract K E A I0 B0 H)). Qed.
+(* ... so the two specifications hold, with no residual assumption, for every replayed run that passes the check *)
+Theorem C08_maxvol_spec_checked : forall (T : Type) (K : ops T), ordfield K ->
+  (forall x y, oeqb K x y = true -> x = y) ->
+  forall A I0 B0 e k, lu_contract_b K A I0 B0 = true ->
+  (0 < mc A)%nat -> (mc A < mr A)%nat -> oleb K (o0 K) e = true ->
+  exists I B conv, maxvol_full K (lu_replay I0 B0) A e k = Ok (I, B, conv) /\
+                   maxvol K (lu_replay I0 B0) A e k = Ok (I, B) /\ maxvol_post K A e I B conv.
+Proof. exact @maxvol_spec_checked. Qed.
+Theorem C08_rect_spec_checked : forall (T : Type) (K : ops T), ordfield K ->
+  (forall x y, oeqb K x y = true -> x = y) ->
+  forall A I0 B0 e dr_min dr_max e0 k0, lu_contract_b K A I0 B0 = true ->
+  (0 < mc A)%nat -> (mc A < mr A)%nat -> oleb K (o0 K) e0 = true -> oleb K (o1 K) (omul K e e) = true ->
+  (0 <= dr_min)%Z -> (mc A + Z.to_nat dr_min <= mr A)%nat ->
+  (match dr_max with Some d => (dr_min <= d)%Z | None => True end) ->
+  exists I B st, maxvol_rect_full K true (lu_replay I0 B0) A e dr_min dr_max e0 k0 = Ok (I, B, st) /\
+                 maxvol_rect K (lu_replay I0 B0) A e dr_min dr_max e0 k0 = Ok (I, B) /\
+                 rect_post K A e (mc A + Z.to_nat dr_min) (rect_hi A dr_max) I B st.
+Proof. exact @rect_spec_checked. Qed.
+
 (* ---------------- non-vacuity ---------------- *)
 
 (* the laws hold for the exact carrier of the correspondence runs *)
 Example C08_ordfield_Qc : ordfield OQc.
 Proof. exact ordfield_Qc. Qed.
+
+Example C08_eqb_sound_Qc : forall x y : Qc, oeqb OQc x y = true -> x = y.
+Proof. exact Qc_eqb_sound. Qed.
+(* the boolean check accepts the initialisation of A_S1 = [[1],[0]] (I0 = [0], B0 = [[1],[0]]) and rejects a wrong one *)
+Example C08_lu_check_example :
+  lu_contract_b OQc A_S1 [0%nat] (mk_mat 2 1 [[Q2Qc 1]; [Q2Qc 0]]) = true /\
+  lu_contract_b OQc A_S1 [1%nat] (mk_mat 2 1 [[Q2Qc 1]; [Q2Qc 0]]) = false.
+Proof. split; vm_compute; reflexivity. Qed.
 
 (* the oracle contract is met by the executable initialisation on a concrete tall matrix, the iteration makes a
    swap (I0 = [0;1] becomes [2;1]) and leaves by its test *)
